@@ -28,14 +28,35 @@ def rquat(rng, amp=1.0):
     return unit([1.0] + [rng.uniform(-amp, amp) for _ in range(3)])
 
 
-def geom(gtype, size, pos=(0, 0, 0), quat=(1, 0, 0, 0), condim=3, friction=(1, 0.005, 0.0001), margin=0.0, gap=0.0, density=1000.0):
+DEF_SOLREF = (0.02, 1.0)
+DEF_SOLIMP = (0.9, 0.95, 0.001, 0.5, 2.0)
+
+
+def geom(gtype, size, pos=(0, 0, 0), quat=(1, 0, 0, 0), condim=3, friction=(1, 0.005, 0.0001), margin=0.0, gap=0.0, density=1000.0,
+         solref=DEF_SOLREF, solimp=DEF_SOLIMP):
     return {"type": gtype, "size": list(size) + [0.0] * (3 - len(size)), "pos": list(pos), "quat": list(quat), "condim": condim,
-            "friction": list(friction), "margin": margin, "gap": gap, "density": density}
+            "friction": list(friction), "margin": margin, "gap": gap, "density": density, "solref": list(solref), "solimp": list(solimp)}
 
 
-def joint(jtype, axis=(0, 0, 1), pos=(0, 0, 0), damping=0.0, stiffness=0.0, armature=0.0, limited=False, rng_=(0.0, 0.0), springref=0.0):
+def rand_solref(rng, direct=None):
+    """standard (timeconst, dampratio) - sometimes below 2 timesteps so that the REFSAFE clamp acts - or direct (-stiffness, -damping)"""
+    if direct is None:
+        direct = rng.random() < 0.5
+    if direct:
+        return [-rng.uniform(50.0, 3000.0), -rng.uniform(1.0, 80.0)]
+    return [rng.choice([0.003, 0.01, 0.02, 0.05]) * rng.uniform(0.8, 1.2), rng.uniform(0.3, 1.6)]
+
+
+def rand_solimp(rng):
+    return [rng.uniform(0.4, 0.9), rng.uniform(0.9, 0.995), 10 ** rng.uniform(-3, -1), rng.uniform(0.2, 0.8), rng.choice([1.0, 2.0, 2.0, 3.0])]
+
+
+def joint(jtype, axis=(0, 0, 1), pos=(0, 0, 0), damping=0.0, stiffness=0.0, armature=0.0, limited=False, rng_=(0.0, 0.0), springref=0.0,
+          frictionloss=0.0, solref_limit=DEF_SOLREF, solimp_limit=DEF_SOLIMP, solref_friction=DEF_SOLREF, solimp_friction=DEF_SOLIMP):
     return {"type": jtype, "axis": list(axis), "pos": list(pos), "damping": damping, "stiffness": stiffness, "armature": armature,
-            "limited": bool(limited), "range": list(rng_), "springref": springref}
+            "limited": bool(limited), "range": list(rng_), "springref": springref, "frictionloss": frictionloss,
+            "solref_limit": list(solref_limit), "solimp_limit": list(solimp_limit), "solref_friction": list(solref_friction),
+            "solimp_friction": list(solimp_friction)}
 
 
 def make_model(rng, family):
@@ -46,7 +67,7 @@ def make_model(rng, family):
        'contact3' : the same with condim 3 (pyramidal or elliptic)
        'spheres'  : free spheres resting on each other and on the plane (sphere-sphere, plane-sphere)
        'capsules' : sphere-capsule and capsule-capsule pairs (MJX kernels regularised with 1e-6: looser tolerance)"""
-    M = {"family": family, "bodies": [], "wgeoms": [], "acts": [], "wsites": [], "tendons": []}
+    M = {"family": family, "bodies": [], "wgeoms": [], "acts": [], "wsites": [], "tendons": [], "eqs": []}
     opt = {"timestep": rng.choice([0.002, 0.004, 0.005]), "gravity": [0.0, 0.0, -9.81], "cone": 0, "integrator": 0, "solver": 2,
            "iterations": 100, "impratio": 1.0, "tolerance": 1e-10, "disableflags": 0}
     M["opt"] = opt
@@ -98,6 +119,65 @@ def make_model(rng, family):
             if rng.random() < 0.6:
                 M["acts"].append({"joint": jn, "kind": rng.choice([0, 0, 1]), "gear": rng.uniform(0.5, 3.0), "kp": rng.uniform(1, 20)})
         M["collide"] = False
+        return M
+
+    if family == "solparams":
+        # every kind of constraint row with its own solver parameters: solref in the standard (timeconst, dampratio) and in the direct
+        # (-stiffness, -damping) form, solimp with other widths / midpoints / powers; rows active and moving (non-zero J qvel)
+        opt["cone"] = rng.choice([0, 1])
+        opt["impratio"] = rng.choice([1.0, 2.0]) if opt["cone"] else 1.0
+        opt["disableflags"] = rng.choice([0, 0, 1 << 12])          # mjDSBL_REFSAFE
+        presets = {}
+        # (1) limited slide joint
+        b0 = add_body(-1, [0, 0, 1])
+        add_joint(b0, joint(2, axis=[1, 0, 0], limited=True, rng_=(-0.2, 0.3), solref_limit=rand_solref(rng), solimp_limit=rand_solimp(rng),
+                            damping=rng.uniform(0, 0.3)))
+        M["bodies"][b0]["geoms"].append(geom(2, [0.05]))
+        presets[0] = [0.3 + rng.uniform(0.002, 0.04), -0.2 - rng.uniform(0.002, 0.04), rng.uniform(-0.1, 0.2)]
+        # (2) limited hinge with friction loss and its own friction solver parameters
+        b1 = add_body(-1, [2, 0, 1])
+        add_joint(b1, joint(3, axis=[0, 1, 0], limited=True, rng_=(-0.5, 0.4), frictionloss=rng.uniform(0.05, 0.5),
+                            solref_limit=rand_solref(rng), solimp_limit=rand_solimp(rng), solref_friction=rand_solref(rng), solimp_friction=rand_solimp(rng)))
+        M["bodies"][b1]["geoms"].append(geom(3, [0.03, 0.15], pos=[0.15, 0, 0], quat=unit([1, 0, 1, 0])))
+        presets[1] = [0.4 + rng.uniform(0.002, 0.05), rng.uniform(-0.3, 0.3), -0.5 - rng.uniform(0.002, 0.05)]
+        # (3) two hinges coupled by a joint equality; a ball-jointed link connected to the world
+        b2 = add_body(-1, [4, 0, 1])
+        add_joint(b2, joint(3, axis=[0, 1, 0]))
+        M["bodies"][b2]["geoms"].append(geom(3, [0.03, 0.15], pos=[0.15, 0, 0], quat=unit([1, 0, 1, 0])))
+        b3 = add_body(b2, [0.3, 0, 0])
+        add_joint(b3, joint(3, axis=[0, 1, 0]))
+        M["bodies"][b3]["geoms"].append(geom(2, [0.04], pos=[0.1, 0, 0]))
+        M["eqs"].append({"kind": 0, "j1": 3, "j2": 2, "c0": rng.uniform(-0.2, 0.2), "c1": rng.uniform(0.3, 1.5), "solref": rand_solref(rng), "solimp": rand_solimp(rng)})
+        b4 = add_body(-1, [6, 0, 1])
+        add_joint(b4, joint(3, axis=[0, 1, 0], damping=0.05))
+        M["bodies"][b4]["geoms"].append(geom(3, [0.03, 0.2], pos=[0.2, 0, 0], quat=unit([1, 0, 1, 0])))
+        M["eqs"].append({"kind": 0, "j1": 4, "j2": -1, "c0": rng.uniform(-0.1, 0.1), "c1": 0.0, "solref": rand_solref(rng), "solimp": rand_solimp(rng)})
+        # (4) spheres on the plane, contact parameters mixed from two geoms (both standard or both direct)
+        direct = rng.random() < 0.5
+        cd = rng.choice([1, 3]) if opt["cone"] == 0 else 3
+        fr = (rng.uniform(0.5, 1.2), 0.005, 0.0001)
+        M["wgeoms"].append(geom(0, [5, 5, 0.1], condim=cd, friction=fr, solref=rand_solref(rng, direct), solimp=rand_solimp(rng)))
+        for k in range(2):
+            rad = rng.uniform(0.05, 0.1)
+            b = add_body(-1, [8 + k, 0, rad - rng.uniform(0.001, 0.01)])
+            add_joint(b, joint(0))
+            M["bodies"][b]["geoms"].append(geom(2, [rad], condim=cd, friction=fr, solref=rand_solref(rng, direct), solimp=rand_solimp(rng)))
+        M["presets"] = presets
+        M["collide"] = True
+        M["always_moving"] = True
+        return M
+
+    if family == "connect_moving":
+        # fixed replay of the candidate finding "MJX has no Jdot*v correction for connect / weld rows": a ball-jointed link whose tip is connected
+        # to the world, moving
+        opt["timestep"] = 0.004
+        b = add_body(-1, [0, 0, 1])
+        add_joint(b, joint(1, damping=0.05))
+        M["bodies"][b]["geoms"].append(geom(3, [0.03, 0.2], pos=[0.2, 0, 0], quat=unit([1, 0, 1, 0])))
+        M["eqs"].append({"kind": 1, "body": 0, "anchor": [0.4, 0.0, 0.0], "solref": [0.02, 1.0], "solimp": list(DEF_SOLIMP)})
+        M["collide"] = True
+        M["always_moving"] = True
+        M["known"] = "jdotv"
         return M
 
     if family == "tendons":
@@ -256,6 +336,8 @@ def random_state(M, rng, k):
                 q[i] = rng.uniform(-2.5, 2.5)
             i += {0: 7, 1: 4, 2: 1, 3: 1}[t]
     vs = 0.0 if k == 0 else (0.05 if M["collide"] else 1.0)
+    if M.get("always_moving"):
+        vs = 0.3
     v = [rng.uniform(-vs, vs) for _ in range(nv)]
     u = [rng.uniform(-1, 1) for _ in range(nu)]
     return {"qpos": q, "qvel": v, "ctrl": u}
@@ -271,9 +353,9 @@ def quat_mul(a, b):
 # ------------------------------------------------------------------------------------------------ printers
 def geom_xml(g):
     n = {0: 3, 2: 1, 3: 2}[g["type"]]
-    return ('<geom type="%s" size="%s" pos="%s" quat="%s" condim="%d" friction="%s" margin="%s" gap="%s" density="%s"/>' %
+    return ('<geom type="%s" size="%s" pos="%s" quat="%s" condim="%d" friction="%s" margin="%s" gap="%s" density="%s" solref="%s" solimp="%s"/>' %
             (GEOM_NAME[g["type"]], vec(g["size"][:n]), vec(g["pos"]), vec(g["quat"]), g["condim"], vec(g["friction"]), r(g["margin"]),
-             r(g["gap"]), r(g["density"])))
+             r(g["gap"]), r(g["density"]), vec(g.get("solref", DEF_SOLREF)), vec(g.get("solimp", DEF_SOLIMP))))
 
 
 def to_xml(M):
@@ -283,7 +365,7 @@ def to_xml(M):
            '<option timestep="%s" gravity="%s" cone="%s" integrator="%s" solver="%s" iterations="%d" impratio="%s" tolerance="%s" jacobian="dense"/>' %
            (r(o["timestep"]), vec(o["gravity"]), CONE_NAME[o["cone"]], INTEG_NAME[o["integrator"]], SOLVER_NAME[o["solver"]], o["iterations"],
             r(o["impratio"]), r(o["tolerance"])),
-           '<worldbody>']
+           ] + (['<option><flag refsafe="disable"/></option>'] if o["disableflags"] & (1 << 12) else []) + ['<worldbody>']
     for g in M["wgeoms"]:
         out.append(geom_xml(g))
     for st in M.get("wsites", []):
@@ -297,9 +379,12 @@ def to_xml(M):
         b = M["bodies"][i]
         out.append('<body name="b%d" pos="%s" quat="%s">' % (i, vec(b["pos"]), vec(b["quat"])))
         for j in b["joints"]:
-            out.append('<joint name="j%d" type="%s" axis="%s" pos="%s" damping="%s" stiffness="%s" armature="%s" limited="%s" range="%s" springref="%s"/>' %
+            out.append('<joint name="j%d" type="%s" axis="%s" pos="%s" damping="%s" stiffness="%s" armature="%s" limited="%s" range="%s" springref="%s" '
+                       'frictionloss="%s" solreflimit="%s" solimplimit="%s" solreffriction="%s" solimpfriction="%s"/>' %
                        (jn[0], JNT_NAME[j["type"]], vec(j["axis"]), vec(j["pos"]), r(j["damping"]), r(j["stiffness"]), r(j["armature"]),
-                        "true" if j["limited"] else "false", vec(j["range"]), r(j["springref"])))
+                        "true" if j["limited"] else "false", vec(j["range"]), r(j["springref"]), r(j.get("frictionloss", 0.0)),
+                        vec(j.get("solref_limit", DEF_SOLREF)), vec(j.get("solimp_limit", DEF_SOLIMP)), vec(j.get("solref_friction", DEF_SOLREF)),
+                        vec(j.get("solimp_friction", DEF_SOLIMP))))
             jn[0] += 1
         for g in b["geoms"]:
             out.append(geom_xml(g))
@@ -314,6 +399,15 @@ def to_xml(M):
     for i in children.get(-1, []):
         emit(i)
     out.append('</worldbody>')
+    if M.get("eqs"):
+        out.append('<equality>')
+        for e in M["eqs"]:
+            if e["kind"] == 0:
+                out.append('<joint joint1="j%d" %spolycoef="%s %s 0 0 0" solref="%s" solimp="%s"/>' %
+                           (e["j1"], ('joint2="j%d" ' % e["j2"]) if e["j2"] >= 0 else "", r(e["c0"]), r(e["c1"]), vec(e["solref"]), vec(e["solimp"])))
+            else:
+                out.append('<connect body1="b%d" anchor="%s" solref="%s" solimp="%s"/>' % (e["body"], vec(e["anchor"]), vec(e["solref"]), vec(e["solimp"])))
+        out.append('</equality>')
     if M.get("tendons"):
         out.append('<tendon>')
         for k, t in enumerate(M["tendons"]):
@@ -336,8 +430,8 @@ def to_xml(M):
 
 
 def geom_line(kw, g):
-    return "%s %d %s %s %s %d %s %s %s %s" % (kw, g["type"], vec(g["size"]), vec(g["pos"]), vec(g["quat"]), g["condim"], vec(g["friction"]),
-                                             r(g["margin"]), r(g["gap"]), r(g["density"]))
+    return "%s %d %s %s %s %d %s %s %s %s %s %s" % (kw, g["type"], vec(g["size"]), vec(g["pos"]), vec(g["quat"]), g["condim"], vec(g["friction"]),
+                                                   r(g["margin"]), r(g["gap"]), r(g["density"]), vec(g.get("solref", DEF_SOLREF)), vec(g.get("solimp", DEF_SOLIMP)))
 
 
 def to_lines(M, states):
@@ -351,12 +445,20 @@ def to_lines(M, states):
     for b in M["bodies"]:
         L.append("body %d %s %s" % (b["parent"], vec(b["pos"]), vec(b["quat"])))
         for j in b["joints"]:
-            L.append("joint %d %s %s %s %s %s %d %s %s" % (j["type"], vec(j["axis"]), vec(j["pos"]), r(j["damping"]), r(j["stiffness"]),
-                                                          r(j["armature"]), int(j["limited"]), vec(j["range"]), r(j["springref"])))
+            L.append("joint %d %s %s %s %s %s %d %s %s %s %s %s %s %s" % (j["type"], vec(j["axis"]), vec(j["pos"]), r(j["damping"]), r(j["stiffness"]),
+                                                                         r(j["armature"]), int(j["limited"]), vec(j["range"]), r(j["springref"]),
+                                                                         r(j.get("frictionloss", 0.0)), vec(j.get("solref_limit", DEF_SOLREF)),
+                                                                         vec(j.get("solimp_limit", DEF_SOLIMP)), vec(j.get("solref_friction", DEF_SOLREF)),
+                                                                         vec(j.get("solimp_friction", DEF_SOLIMP))))
         for g in b["geoms"]:
             L.append(geom_line("geom", g))
         for st in b.get("sites", []):
             L.append("site %s %s" % (st["name"], vec(st["pos"])))
+    for e in M.get("eqs", []):
+        if e["kind"] == 0:
+            L.append("eq 0 %d %d %s %s %s %s" % (e["j1"], e["j2"], r(e["c0"]), r(e["c1"]), vec(e["solref"]), vec(e["solimp"])))
+        else:
+            L.append("eq 1 %d %s %s %s" % (e["body"], vec(e["anchor"]), vec(e["solref"]), vec(e["solimp"])))
     for t in M.get("tendons", []):
         L.append("tendon %s %s %s %d %s" % (r(t["stiffness"]), r(t["damping"]), vec(t["springlength"]), len(t["wraps"]),
                                           " ".join("%d %d %s" % (kind, ref, r(coef)) for kind, ref, coef in t["wraps"])))
@@ -407,6 +509,12 @@ def reorder_depth_first(M):
         a["joint"] = jnew[a["joint"]]
     for t in M.get("tendons", []):
         t["wraps"] = [(kind, jnew[ref] if kind == 0 else ref, coef) for kind, ref, coef in t["wraps"]]
+    for e in M.get("eqs", []):
+        if e["kind"] == 0:
+            e["j1"] = jnew[e["j1"]]
+            e["j2"] = jnew[e["j2"]] if e["j2"] >= 0 else -1
+        else:
+            e["body"] = newidx[e["body"]]
     if M.get("presets"):
         M["presets"] = {jnew[j]: v for j, v in M["presets"].items()}
     return M
